@@ -191,8 +191,10 @@ def sizes (c : Case) : Option (List Nat) :=
   | .influxdb => some ((countBatches c.cfg.batch gs.flatten []).map List.length)
   | .otlp => some ((otlpBatches c.cfg.batch gs.flatten []).map List.length)
   | .cloudwatch => some ((cwChunks gs.flatten).map List.length)
-  | .datadog | .newrelic =>
+  | .datadog =>
     if c.det then some ((slackBatches flushSlack c.cfg.batch gs []).map List.length) else none
+  | .newrelic =>
+    if c.det then some ((slackBatches nrFlushSlack c.cfg.batch gs []).map List.length) else none
   | .statsdaemon =>
     if c.det && c.cfg.packet == Gsd.Facts.maxUDPPacketSize then some ((relayDatagrams c.cfg c.view).map List.length) else none
   | _ => none
